@@ -83,9 +83,36 @@ def write_case(root, case):
 
 
 def run_jobs(binp, command, jobs, workers=None, timeout=900):
-    """One harness process per shard; a crashing/hanging job yields None."""
-    lines = [json.dumps(j) for j in jobs]
+    """One harness process per shard. A job that hangs is answered {"status": "Timeout"} by the
+    harness watchdog and the jobs after it {"status": "Skipped"}: those are re-submitted to fresh
+    processes. A job that kills its process yields None."""
     n = workers or core.NCPU
-    chunk = max(1, (len(lines) + n - 1) // n)
-    out = core.run_harness_robust(binp, command, lines, timeout=timeout, chunk=chunk)
-    return [json.loads(x) if x is not None else None for x in out]
+    out = [None] * len(jobs)
+    todo = list(range(len(jobs)))
+    for _ in range(12):
+        if not todo:
+            break
+        lines = [json.dumps(jobs[i]) for i in todo]
+        chunk = max(1, (len(lines) + n - 1) // n)
+        res = core.run_harness_robust(binp, command, lines, timeout=timeout, chunk=chunk)
+        again = []
+        for i, x in zip(todo, res):
+            v = json.loads(x) if x is not None else None
+            if isinstance(v, dict) and v.get("skipped"):
+                again.append(i)
+            else:
+                out[i] = v
+        todo = again
+    return out
+
+
+TIMEOUT_VARIANT = {"status": "Timeout", "files": {}, "ir": {}, "files_sha": "timeout", "pkg_order": [], "count": 1}
+
+
+def variants_of(r):
+    """the list of distinct observables of a `run` result; a hung or crashed job is one pseudo-variant"""
+    if r is None:
+        return [dict(TIMEOUT_VARIANT, status="Crash")]
+    if r.get("timeout"):
+        return [dict(TIMEOUT_VARIANT)]
+    return r["variants"]
